@@ -30,6 +30,7 @@ type Explorer struct {
 
 	Violations        []*Violation
 	vioSeen           map[string]bool
+	vioCount          map[string]int
 	Status            map[string]int
 	Reached           map[string]bool
 	Asserts           map[string]bool
@@ -100,6 +101,7 @@ func NewExplorer(prog *ssa.Program, cfg Config) *Explorer {
 	ex := &Explorer{Prog: prog, cfg: cfg}
 	ex.cond = sync.NewCond(&ex.mu)
 	ex.vioSeen = map[string]bool{}
+	ex.vioCount = map[string]int{}
 	ex.Status = map[string]int{}
 	ex.Reached = map[string]bool{}
 	ex.reachBusy = map[string]bool{}
@@ -247,11 +249,20 @@ func (in *Interp) randomWitness(tries int) bool {
 func (ex *Explorer) addViolation(v *Violation) {
 	ex.mu.Lock()
 	defer ex.mu.Unlock()
-	sig := v.Harness + "|" + v.ID + "|" + v.Site
-	if ex.vioSeen[sig] {
+	base := v.Harness + "|" + v.ID + "|" + v.Site
+	var cs strings.Builder
+	for _, d := range v.Draws {
+		if d.Kind == "choose" {
+			cs.WriteString(d.Val)
+			cs.WriteByte(',')
+		}
+	}
+	sig := base + "|" + cs.String()
+	if ex.vioSeen[sig] || ex.vioCount[base] >= 4 {
 		return
 	}
 	ex.vioSeen[sig] = true
+	ex.vioCount[base]++
 	ex.Violations = append(ex.Violations, v)
 	if len(ex.Violations) >= ex.MaxViol {
 		ex.stopped = true
